@@ -179,18 +179,67 @@ class EStep(Contract):
 staleF = z3.Function("labels_of_a_run_that_stopped_with_zero_centre_shift", z3.ArraySort(z3.IntSort(), z3.IntSort()), z3.BoolSort())
 
 
-@contract(K + "::_k_init", "C06", assumed=True)
+def rows_of_the_data(E, centers, X, upto):
+    """every centre below `upto` is a row of the data.  (The first coordinate is named on its own - it is one of the coordinates, the data has at
+    least one column - so that the solver has ground terms to instantiate the two quantifiers with.)"""
+    from pyvc.counting import usable_trigger
+    c, r, j = z3.Int(models.fresh_name("c")), z3.Int(models.fresh_name("r")), z3.Int(models.fresh_name("j"))
+    inner = z3.And(r >= 0, r < z(X.shape[0]), centers.get(c, 0) == X.get(r, 0),
+                   z3.ForAll([j], z3.Implies(z3.And(j >= 0, j < z(X.shape[1])), centers.get(c, j) == X.get(r, j))))
+    ex = z3.Exists([r], inner, patterns=[X.get(r, 0)]) if usable_trigger(X.get(r, 0)) else z3.Exists([r], inner)
+    body = z3.Implies(z3.And(c >= 0, c < z(upto)), ex)
+    return z3.ForAll([c], body, patterns=[centers.get(c, 0)]) if usable_trigger(centers.get(c, 0)) else z3.ForAll([c], body)
+
+
+@contract(K + "::_k_init", "C06")
 class KInit(Contract):
-    """ASSUMED (k-means++ seeding, randomised): n_clusters rows of the data's dimension"""
+    """PROVED (dense data): the k-means++ seeding returns n_clusters centres of the data's dimension, each of them a row of the data; no index
+    leaves its array whatever the random draws are (searchsorted / argmin positions are only known to be in range); the data is not written"""
+    variants = ["L1", "L2"]
+    loop_reshaped = {0: {"closest_dist_sq": ("nd", 1, "real")}}      # a (1, n) matrix before the loop, a row of n distances after an iteration
+
+    def setup(self, E, v):
+        n, d, k = E.size("n", 1), E.size("d", 1), E.size("k", 1)
+        return dict(norm=v, X=E.nd("X", (n, d)), n_clusters=k, random_state=E.registry.fns["numpy.random.RandomState"](E, E.int("seed")), n_local_trials=None)
+
+    def requires(self, E, a):
+        return {"at_least_one_point_and_one_cluster": z3.And(z(a.X.shape[0]) >= 1, z(a.n_clusters) >= 1)}
+
+    def old(self, E, a):
+        return dict(w=a.X.cell.writes)
+
+    @staticmethod
+    def _inv(E, L):
+        X, cen, cd = L["X"], L["centers"], L["closest_dist_sq"]
+        n = X.shape[0]
+        out = {"centres_keep_their_shape": z3.And(z(cen.shape[0]) == z(L["n_clusters"]), z(cen.shape[1]) == z(X.shape[1])),
+               "centres_chosen_so_far_are_rows_of_the_data": rows_of_the_data(E, cen, X, L.k + 1),
+               "at_least_two_local_trials": z(L["n_local_trials"]) >= 2,
+               "one_closest_distance_per_point": (z3.And(z(cd.shape[0]) == 1, z(cd.shape[1]) == z(n)) if cd.ndim == 2 else z(cd.shape[0]) == z(n))
+               if isinstance(cd, NdArr) else z3.BoolVal(False)}
+        return out
+    loops = {0: _inv.__func__}
 
     def result(self, E, a, old):
         return NdArr.fresh("kpp_centers", (a.n_clusters, a.X.shape[1]), "real")
+
+    def ensures(self, E, a, res, old):
+        ok = isinstance(res, NdArr) and res.ndim == 2
+        out = {"returns_a_matrix": z3.BoolVal(ok)}
+        if ok:
+            out["n_clusters_centres_of_the_data_dimension"] = z3.And(z(res.shape[0]) == z(a.n_clusters), z(res.shape[1]) == z(a.X.shape[1]))
+            out["every_centre_is_a_row_of_the_data"] = rows_of_the_data(E, res, a.X, a.n_clusters)
+            out["data_not_written"] = z3.BoolVal(a.X.cell.writes == old["w"])
+        return out
+
+    canaries = {"every_centre_is_the_first_row_of_the_data": lambda E, a, res, old: E.forall_range(
+        [(0, z(a.n_clusters)), (0, z(a.X.shape[1]))], lambda c, j: res.get(c, j) == a.X.get(0, j))}
 
 
 @contract(K + "::_init_centroids", "C06")
 class InitCentroids(Contract):
     """PROVED: with at least k points (k == n included) the initialisation never fails and gives k centres of the data's dimension -
-    k-means++ (its seeding _k_init assumed), k random rows of the data, or the given array"""
+    k-means++ (its seeding _k_init is proved to return rows of the data), k random rows of the data, or the given array"""
     variants = ["k-means++", "random", "array"]
 
     def setup(self, E, v):
@@ -220,11 +269,8 @@ class InitCentroids(Contract):
         kind = a._v if "_v" in a else ("array" if isinstance(a.init, NdArr) else (a.init if isinstance(a.init, str) else None))
         if ok and kind == "array":
             out["the_given_centres"] = E.forall_range([(0, z(a.k)), (0, z(a.X.shape[1]))], lambda c, j: res.get(c, j) == a.init.get(c, j))
-        if ok and kind == "random":
-            c, r = z3.Int(models.fresh_name("c")), z3.Int(models.fresh_name("r"))
-            j = z3.Int(models.fresh_name("j"))
-            out["every_centre_is_a_row_of_the_data"] = z3.ForAll([c], z3.Implies(z3.And(c >= 0, c < z(a.k)), z3.Exists([r], z3.And(
-                r >= 0, r < z(a.X.shape[0]), z3.ForAll([j], z3.Implies(z3.And(j >= 0, j < z(a.X.shape[1])), res.get(c, j) == a.X.get(r, j)))))))
+        if ok and kind in ("random", "k-means++") and a.get("init_size") is None:
+            out["every_centre_is_a_row_of_the_data"] = rows_of_the_data(E, res, a.X, a.k)
         return out
 
 
@@ -508,7 +554,10 @@ META = dict(
     level="proof", lean_files=["lemmas/Sums.lean"], assumptions=["A1", "A2", "A6", "A7", "A9"],
     trusted=["pairwise_distances_argmin_min(metric='manhattan') returns an index of a Manhattan-nearest row and that distance; manhattan_distances is the "
              "matrix of those distances; KMeans.fit/predict/transform are scikit-learn's (L2 equality is equality by delegation)",
-             "ASSUMED in-repo steps of the L1 fit: _k_init (k-means++ seeding: k rows of the data's dimension); _init_centroids (never fails for n >= k) and _tolerance (L1) are PROVED; "
+             "no in-repo step of the L1 fit is assumed: _k_init (k-means++ seeding, dense data: k centres that are rows of the data, every index in range), "
+             "_init_centroids (never fails for n >= k) and _tolerance (L1) are PROVED; ASSUMED models used by _k_init: RandomState.randint / random_sample "
+             "ranges, numpy.searchsorted returns positions in [0, len], numpy.argmin a position of the vector, stable_cumsum a vector of the same length, "
+             "numpy.clip / numpy.minimum(out=) element-wise; "
              "check_random_state / check_array / _check_sample_weight / numpy.isclose / numpy.where / argsort models; numpy.median lies, per column, "
              "between two entries of that column",
              "ghost flag of a run (labels_of_a_run_that_stopped_with_zero_centre_shift): only ever assumed positively - a run that stops with a centre "
